@@ -20,10 +20,11 @@ Definition px_operands : list (string * string * string) := [
   ("CallExpr", "x.Fun", "token.HighestPrec");
   ("CallExpr", "x.Args", "exprList");
   ("CallExpr", "x.Args", "exprList");
-  ("ErrWrapExpr", "x.X", "expr");
-  ("ErrWrapExpr", "x.Default", "expr");
+  ("ErrWrapExpr", "x.X", "token.HighestPrec");
+  ("ErrWrapExpr", "x.Default", "token.UnaryPrec");
   ("IndexExpr", "x.X", "token.HighestPrec");
   ("IndexExpr", "x.Index", "expr0");
+  ("LambdaExpr", "x", "token.LowestPrec");
   ("LambdaExpr", "x.Lhs", "identList");
   ("LambdaExpr", "x.Lhs[0]", "expr");
   ("LambdaExpr", "x.Rhs", "exprList");
@@ -32,8 +33,8 @@ Definition px_operands : list (string * string * string) := [
   ("ParenExpr", "x.X", "expr0");
   ("SelectorExpr", "x", "selectorExpr");
   ("SelectorExpr#selectorExpr", "x.X", "token.HighestPrec");
-  ("StarExpr", "x.X", "expr");
-  ("StarExpr", "x.X", "expr");
+  ("StarExpr", "x.X", "prec");
+  ("StarExpr", "x.X", "prec");
   ("UnaryExpr", "x", "expr");
   ("UnaryExpr", "x.X", "prec")
 ].
@@ -41,6 +42,9 @@ Definition px_operands : list (string * string * string) := [
 (* (node kind, condition mentioning prec1) *)
 Definition px_paren_conds : list (string * string) := [
   ("BinaryExpr#binaryExpr", "prec < prec1");
+  ("ErrWrapExpr", "x.Default != nil && token.UnaryPrec < prec1");
+  ("LambdaExpr", "token.LowestPrec < prec1");
+  ("LambdaExpr2", "token.LowestPrec < prec1");
   ("StarExpr", "prec < prec1");
   ("UnaryExpr", "prec < prec1")
 ].
